@@ -430,7 +430,32 @@ func ruleCtorCleanup(c *Checker) {
 			if _, isGo := in.(*ssa.Go); isGo {
 				return false
 			}
-			return ci.Common().StaticCallee() == gclose
+			if ci.Common().StaticCallee() == gclose {
+				return true
+			}
+			// `defer func() { ... conn.Close() ... }()` on the error leg: the literal runs when the
+			// constructor returns; it counts when every path through it calls Close
+			if df, isDefer := in.(*ssa.Defer); isDefer {
+				if mc, ok := df.Call.Value.(*ssa.MakeClosure); ok {
+					if lit, ok := mc.Fn.(*ssa.Function); ok {
+						all, any := true, false
+						inner := func(x ssa.Instruction) bool {
+							c2, ok := x.(ssa.CallInstruction)
+							return ok && c2.Common().StaticCallee() == gclose
+						}
+						allInstrs(lit, func(x ssa.Instruction) {
+							if inner(x) {
+								any = true
+							}
+							if ret, ok := x.(*ssa.Return); ok && pathFromEntry(lit, ret, inner) {
+								all = false
+							}
+						})
+						return all && any
+					}
+				}
+			}
+			return false
 		}
 		n := 0
 		bad := ""
